@@ -475,6 +475,107 @@ def hist_shard(arg):
     return res
 
 
+def prefixed_case(case, root):
+    """`prefixed()` load functions on the real loader, oracle only: search path items are
+    directory names `['D', d]` and `['P', d]` = prefixed(sub=<dir d>) (serves `sub/<name>` from
+    `<dir d>/<name>`, has nothing else); after the writes of the case every load must return the
+    template of the file found first on the search path, or raise TemplateNotFound when no item
+    has it — in particular an item that does not have the name is passed over, whatever it is"""
+    from genshi.template.loader import TemplateLoader, prefixed
+    from genshi.template import MarkupTemplate
+    import shutil
+    shutil.rmtree(root, ignore_errors=True)
+    dirs = []
+    for d in range(3):
+        p = os.path.join(root, 'd%d' % d)
+        os.makedirs(p)
+        dirs.append(p)
+    try:
+        path = [dirs[e[1]] if e[0] == 'D' else prefixed(sub=dirs[e[1]]) for e in case['path']]
+        loader = TemplateLoader(path, auto_reload=True, max_cache_size=case.get('cap', 5))
+        fs = {}
+        clock = 1
+        for i, op in enumerate(case['ops']):
+            if op[0] == 'W':
+                d, sub, base, content = op[1:5]
+                p = os.path.join(dirs[d], 'sub', 't%d.html' % base) if sub else os.path.join(dirs[d], 't%d.html' % base)
+                os.makedirs(os.path.dirname(p), exist_ok=True)
+                with open(p, 'wb') as f:
+                    f.write(GL.content_bytes(content, False))
+                os.utime(p, (GL.T0 + clock, GL.T0 + clock))
+                clock += 1
+                fs[(d, sub, base)] = content
+                continue
+            sub, base = op[1], op[2]
+            exp = None
+            for e in case['path']:
+                if e[0] == 'D':
+                    loc = (e[1], sub, base)
+                elif sub:
+                    loc = (e[1], False, base)       # the prefix is stripped
+                else:
+                    continue                        # prefixed() does not have this name
+                if loc in fs:
+                    exp = fs[loc]
+                    break
+            try:
+                t = loader.load(GL.fname(sub, base))
+                text = t.generate().render(encoding=None)
+                m = __import__('re').search(r'v(\d+)', text)
+                got = int(m.group(1)) if m else text
+            except Exception as ex:  # noqa
+                got = type(ex).__name__
+            want = 'TemplateNotFound' if exp is None else exp
+            if got != want:
+                return {'case': case, 'what': 'operation %d %s: a load returns the template of the file found first on the search path (items: directories and prefixed() load functions)' % (i, json.dumps(op)),
+                        'expected': want, 'observed': got}
+    finally:
+        shutil.rmtree(root, ignore_errors=True)
+    return None
+
+
+def prefixed_shard(arg):
+    seed, n = arg
+    rng = random.Random('%s/C15-prefixed' % seed)
+    res = Result()
+    root = os.path.join(proto.ROOT, '.build', 'c15-prefixed-%d' % os.getpid())
+    fixed = [{'kind': 'prefixed', 'path': [['P', 1], ['D', 0]], 'ops': [['W', 0, False, 0, 100], ['L', False, 0]]}]
+    for j in range(n):
+        if j < len(fixed):
+            case = fixed[j]
+        else:
+            path = [[rng.choice('DP'), rng.randrange(3)] for _ in range(rng.randrange(1, 4))]
+            ops = []
+            c = 100
+            locs = []
+            # first the files, then loads and rewrites of existing files: no file is *created* after
+            # a load, so the history stays outside the class of finding C15-shadow
+            for _ in range(rng.randrange(1, 6)):
+                c += 1
+                loc = (rng.randrange(3), rng.random() < 0.3, rng.randrange(2))
+                locs.append(loc)
+                ops.append(['W', loc[0], loc[1], loc[2], c])
+            for _ in range(rng.randrange(2, 9)):
+                if rng.random() < 0.3:
+                    c += 1
+                    loc = rng.choice(locs)
+                    ops.append(['W', loc[0], loc[1], loc[2], c])
+                else:
+                    ops.append(['L', rng.random() < 0.5, rng.randrange(2)])
+            case = {'kind': 'prefixed', 'path': path, 'ops': ops, 'cap': rng.choice([1, 2, 5])}
+        res.evaluations += 1
+        res.count('prefixed:histories')
+        if any(e[0] == 'P' for e in case['path']) and any(e[0] == 'D' for e in case['path']):
+            res.count('prefixed:mixed with directories')
+        f = prefixed_case(case, root)
+        if f:
+            res.failures.append(f)
+            if len(res.failures) >= 3:
+                break
+    res.streams['prefixed-oracle'] = res.evaluations
+    return res
+
+
 def corpus_shard(_):
     """corpus/C15/*.json: inputs that once exposed something; oracle + both models, run first"""
     import glob
@@ -494,6 +595,10 @@ def corpus_shard(_):
                 res.failures.append(fail)
             else:
                 lru_batch.append((case['cap'], case.get('nkeys', NKEYS), case['ops'], trace))
+        elif case['kind'] == 'prefixed':
+            fail = prefixed_case(case, root + '-p')
+            if fail:
+                res.failures.append(fail)
         else:
             fail, answers, stats = run_history(case['cfg'], case['ops'], case.get('strict', True), root)
             if fail:
@@ -547,6 +652,8 @@ def run(ctx):
     nh = ctx.n(190, 1800)
     for r in pmap('harness.props.c15', 'hist_shard', [(ctx.seed, i, nh, 25) for i in range(16)]):
         res.merge(r)
+    for r in pmap('harness.props.c15', 'prefixed_shard', [(ctx.seed, ctx.n(150, 1500))]):
+        res.merge(r)
     t3 = time.time()
     res.notes.append('wall: lru-exhaustive %.1fs, lru-random %.1fs, loader histories %.1fs' % (t1 - t0, t2 - t1, t3 - t2))
     res.rule = ('container: every sequence over get/set x 3 keys of length <= %d (capacity 2; min(%d-1, 7) for capacities 0, 1 and 3; sequences starting with a miss on the empty cache are represented by their tail) followed by all reads, '
@@ -575,6 +682,14 @@ def replay(ctx, case):
         return lru_oracle(case['cap'], case['ops'], case.get('nkeys') or max([NKEYS] + [op[1] + 1 for op in case['ops'] if len(op) > 1]))[0]
     if kind == 'lru-inherited':
         return inherited_case(case)
+    if kind == 'prefixed':
+        for e in case['path']:
+            if not (isinstance(e, list) and len(e) == 2 and e[0] in ('D', 'P') and e[1] in range(3)):
+                raise ValueError('not a search path')
+        for op in case['ops']:
+            if not (isinstance(op, list) and ((op[0] == 'W' and len(op) == 5) or (op[0] == 'L' and len(op) == 3))):
+                raise ValueError('not a history')
+        return prefixed_case(case, os.path.join(proto.ROOT, '.build', 'c15-replay-prefixed-%d' % os.getpid()))
     if kind == 'hist':
         root = os.path.join(proto.ROOT, '.build', 'c15-replay-%d' % os.getpid())
         return run_history(case['cfg'], case['ops'], case.get('strict', True), root, want_answers=False)[0]
